@@ -185,3 +185,69 @@ Definition S_frame_reindex (index columns : list A) (cols : list (col V))
 Definition touches (src dst : list A) : bool := existsb (fun x => mem A eqb x src) dst.
 
 End FrameReindex.
+
+(* ---- TypeBlocks._ufunc_binary_operator with a TypeBlocks operand (type_blocks.py:2325-2345, after fix
+   e1c1c73): block_compatible -> block by block; equal shape and reblock_compatible -> on the consolidated
+   blocks; otherwise column by column (axis_values(0)).  Cells V, results R, the operator abstract. ---- *)
+Section TbBinop.
+Variable V R : Type.
+Variable f : V -> V -> R.
+
+Definition bwidth (b : blk V) : nat := length (k_cols V b).
+Definition columns_of (t : list (blk V)) : list (list V) := flat_map (k_cols V) t.
+Definition total_bwidth (t : list (blk V)) : nat := length (columns_of t).
+
+Definition nat_list_eqb := list_eqb Nat.eqb.
+
+(* block_compatible(axis=None): pairwise equal block shapes (a 1-D block is (rows, 1)) *)
+Definition block_compatible (a b : list (blk V)) : bool := nat_list_eqb (map bwidth a) (map bwidth b).
+
+(* _reblock_signature: widths of the runs of equal dtype *)
+Fixpoint sig_go (cur : dtype) (n : nat) (t : list (blk V)) : list nat :=
+  match t with
+  | [] => [n]
+  | b :: r => if dtype_eqb (k_dtype V b) cur then sig_go cur (n + bwidth b)%nat r
+              else n :: sig_go (k_dtype V b) (bwidth b) r
+  end.
+Definition reblock_sig (t : list (blk V)) : list nat :=
+  match t with [] => [] | b :: r => sig_go (k_dtype V b) (bwidth b) r end.
+
+Definition reblock_compatible (a b : list (blk V)) : bool :=
+  Nat.eqb (total_bwidth a) (total_bwidth b) && nat_list_eqb (reblock_sig a) (reblock_sig b).
+
+(* consolidate_blocks: a run of one block is passed through, longer runs are concatenated (2-D) *)
+Fixpoint reblock_go (cur : dtype) (grp : list (blk V)) (t : list (blk V)) : list (blk V) :=
+  let emit := match grp with
+              | [g] => g
+              | _ => mk_blk V cur false (columns_of grp)
+              end in
+  match t with
+  | [] => [emit]
+  | b :: r => if dtype_eqb (k_dtype V b) cur then reblock_go cur (grp ++ [b]) r
+              else emit :: reblock_go (k_dtype V b) [b] r
+  end.
+Definition reblock (t : list (blk V)) : list (blk V) :=
+  match t with [] => [] | b :: r => reblock_go (k_dtype V b) [b] r end.
+
+(* the operator on two lists of columns, pairwise, cell by cell *)
+Definition op_cols (a b : list (list V)) : list (list R) :=
+  map2 (list V) (list R) (map2 V R f) a b.
+
+(* block pairs -> result columns *)
+Fixpoint op_blocks (a b : list (blk V)) : list (list R) :=
+  match a, b with
+  | x :: xt, y :: yt => op_cols (k_cols V x) (k_cols V y) ++ op_blocks xt yt
+  | _, _ => []
+  end.
+
+Definition M_tb_binop_g (a b : list (blk V)) : res (list (list R)) :=
+  if block_compatible a b then Ok (op_blocks a b)
+  else if Nat.eqb (total_bwidth a) (total_bwidth b) then
+    if reblock_compatible a b then Ok (op_blocks (reblock a) (reblock b))
+    else Ok (op_cols (columns_of a) (columns_of b))        (* axis_values(0) of both operands *)
+  else Err "NotImplementedError".
+
+(* specification: the operator applied column by column to the flattened operands *)
+Definition S_tb_binop (a b : list (blk V)) : list (list R) := op_cols (columns_of a) (columns_of b).
+
+End TbBinop.
